@@ -232,9 +232,10 @@ def process_custom(custom: ct.CustomSelectors | None) -> dict[str, str | ct.Sele
             name = util.lower(key)
             if RE_CUSTOM.match(name) is None:
                 raise SelectorSyntaxError(f"The name '{name}' is not a valid custom pseudo-class name")
+            name = util.lower(css_unescape(name))
             if name in custom_selectors:
                 raise KeyError(f"The custom selector '{name}' has already been registered")
-            custom_selectors[css_unescape(name)] = value
+            custom_selectors[name] = value
     return custom_selectors
 
 
